@@ -26,7 +26,13 @@ func init() {
 		Assumptions: []string{"unsupported alternatives (|, in, contains, ~) make all renderings fail alike: consistent, not a violation here",
 			"a string or unit word is never appended after a source ending in a NUMBER (that would form a quantity literal)"},
 		Run:    runC11,
-		Checks: map[string]func(*core.Env, []json.RawMessage){"tree": replayC11, "pure": replayC11Pure, "word": replayC11Word, "chain": replayC11Chain, "typechain": replayC11TypeChain},
+		Checks: map[string]func(*core.Env, []json.RawMessage){"tree": replayC11, "pure": replayC11Pure, "word": replayC11Word, "chain": replayC11Chain, "typechain": replayC11TypeChain, "biglit": func(env *core.Env, a []json.RawMessage) {
+			var lit string
+			var shape int
+			json.Unmarshal(a[0], &lit)
+			json.Unmarshal(a[1], &shape)
+			c11BigLiteral(env, lit, shape)
+		}},
 		Threshold: func(m *core.Merged) []string {
 			var r []string
 			for _, k := range []string{"tree", "compiled", "rejected-consistently", "decorated", "trailing-token", "pure-tree", "min-differs-from-full", "string-method", "keyword-member", "compiled-without-options", "operator-chain"} {
@@ -485,6 +491,35 @@ func replayC11TypeChain(env *core.Env, a []json.RawMessage) {
 	c11TypeChain(env, op, typeOp, operands, grouping)
 }
 
+func c11BigLiteral(env *core.Env, lit string, shape int) {
+	defer env.In("biglit", lit, shape)()
+	l := &gen.Expr{K: "lit", Text: lit}
+	pat := &gen.Expr{K: "ident", Text: "Patient"}
+	names := &gen.Expr{K: "member", Text: "name", Kids: []*gen.Expr{pat}}
+	neg := &gen.Expr{K: "unary", Text: "-", Kids: []*gen.Expr{l}}
+	var tree *gen.Expr
+	switch shape {
+	case 0:
+		tree = &gen.Expr{K: "index", Kids: []*gen.Expr{names, l}} // Patient.name[N]
+	case 1:
+		tree = &gen.Expr{K: "index", Kids: []*gen.Expr{names, neg}} // Patient.name[-N]
+	case 2:
+		tree = &gen.Expr{K: "func", Text: "skip", Recv: true, Kids: []*gen.Expr{names, l}}
+	case 3:
+		tree = &gen.Expr{K: "func", Text: "take", Recv: true, Kids: []*gen.Expr{names, neg}}
+	case 4:
+		tree = &gen.Expr{K: "bin", Text: "+", Kids: []*gen.Expr{{K: "lit", Text: "1"}, l}}
+	case 5:
+		tree = &gen.Expr{K: "bin", Text: "=", Kids: []*gen.Expr{neg, l}}
+	case 6:
+		tree = &gen.Expr{K: "func", Text: "substring", Recv: true, Kids: []*gen.Expr{{K: "lit", Text: "'abc'"}, l, neg}}
+	default:
+		tree = &gen.Expr{K: "index", Kids: []*gen.Expr{{K: "index", Kids: []*gen.Expr{names, l}}, {K: "bin", Text: "-", Kids: []*gen.Expr{l, l}}}} // Patient.name[N][N - N]
+	}
+	env.Cover("boundary-literal")
+	c11Check(env, tree, uint64(shape)*31+uint64(len(lit)), "biglit")
+}
+
 // c11ElementNames: every element name of every resource type and data type reachable from the resource types.
 func c11ElementNames() []string {
 	seen := map[string]bool{}
@@ -604,6 +639,16 @@ func runC11(env *core.Env) {
 		k++
 		if env.Mine(k) {
 			c11Word(env, w, 12)
+		}
+	}
+	// integer literals at and beyond the Integer range, in every position a literal can stand (a literal means the same
+	// with and without parentheses around it)
+	for _, lit := range []string{"2147483647", "2147483648", "4294967296", "4294967297", "9223372036854775808", "99999999999999999999", "0", "00", "007"} {
+		for shape := 0; shape < 8; shape++ {
+			k++
+			if env.Mine(k) {
+				c11BigLiteral(env, lit, shape)
+			}
 		}
 	}
 	for i1, op := range c11Ops {
